@@ -300,9 +300,9 @@ Proof.
     + simpl. apply IH; [assumption|lia].
 Qed.
 
-Lemma gc_index_spec :
+Lemma gc_index_spec (kl : bool) :
   exists ix' g,
-    gc_index succ subject cfg_fixed ords st = Some (ix', g) /\
+    gc_index succ subject cfg_fixed kl ords st = Some (ix', g) /\
     (forall x, In x g <-> Live x) /\
     (forall t n, In (RTag t, n) ix' <-> In (RTag t, n) ix).
 Proof.
@@ -332,18 +332,18 @@ End GC.
    the rebuilt graph and the surviving blobs are exactly the live set, tags are
    untouched, stray files: exactly those with a valid digest name in a known
    algorithm directory are removed *)
-Lemma gc_exact : forall (ords : nat -> list nat) (st : state),
+Lemma gc_exact : forall (kl : bool) (ords : nat -> list nat) (st : state),
   (forall i n, In n (ords i) <-> In n (candidates (idx st))) ->
   exists st',
-    gc succ subject cfg_fixed ords st = (st', Ok) /\
+    gc succ subject cfg_fixed kl ords st = (st', Ok) /\
     (forall x, In x (gnodes st') <-> Live st x) /\
     (forall x, In x (blobs st') <-> In x (blobs st) /\ Live st x) /\
     (forall t n, In (RTag t, n) (idx st') <-> In (RTag t, n) (idx st)) /\
     (forall s, In s (strays st') <-> In s (strays st) /\ (s_known s && s_valid s = false)) /\
     autogc st' = autogc st.
 Proof.
-  intros ords st Ho. unfold gc.
-  destruct (gc_index_spec st ords Ho) as (ix' & g & Hg & HL & Ht). rewrite Hg.
+  intros kl ords st Ho. unfold gc.
+  destruct (gc_index_spec st ords Ho kl) as (ix' & g & Hg & HL & Ht). rewrite Hg.
   eexists. split; [reflexivity|]. simpl. repeat split.
   - rewrite dedup_In. apply HL.
   - rewrite dedup_In. apply HL.
@@ -358,13 +358,13 @@ Proof.
 Qed.
 
 (* every live node keeps exactly its live predecessors *)
-Lemma gc_preds : forall ords st st',
+Lemma gc_preds : forall kl ords st st',
   (forall i n, In n (ords i) <-> In n (candidates (idx st))) ->
-  gc succ subject cfg_fixed ords st = (st', Ok) ->
+  gc succ subject cfg_fixed kl ords st = (st', Ok) ->
   forall x p, In p (preds succ (gnodes st') x) <-> Live st p /\ In x (succ p).
 Proof.
-  intros ords st st' Ho Hgc x p.
-  destruct (gc_exact ords st Ho) as (st2 & H2 & Hg & _). rewrite Hgc in H2.
+  intros kl ords st st' Ho Hgc x p.
+  destruct (gc_exact kl ords st Ho) as (st2 & H2 & Hg & _). rewrite Hgc in H2.
   injection H2 as <-. unfold preds. rewrite filter_In, memb_In, Hg. tauto.
 Qed.
 
@@ -716,7 +716,7 @@ Proof.
   apply IH. exact Hw'.
 Qed.
 
-Lemma step_wf st o : wf st -> wf (fst (step succ subject manifest cfg_fixed st o)).
+Lemma step_wf kl st o : wf st -> wf (fst (step succ subject manifest cfg_fixed kl st o)).
 Proof.
   intro Hw. destruct o as [n|n t|t|n| |b|s]; simpl.
   - unfold push. destruct (memb n (blobs st)); [exact Hw|]. intros y Hy. simpl in *.
@@ -724,16 +724,16 @@ Proof.
   - unfold tag. destruct (memb n (blobs st)); exact Hw.
   - unfold untag. destruct (lookup (RTag t) (idx st)); exact Hw.
   - unfold delete. apply delete_loop_wf. exact Hw.
-  - destruct (gc_exact (fun _ => candidates (idx st)) st ltac:(tauto)) as (st' & Hg & Hn & Hb & _).
+  - destruct (gc_exact kl (fun _ => candidates (idx st)) st ltac:(tauto)) as (st' & Hg & Hn & Hb & _).
     rewrite Hg. intros y Hy. apply Hb. apply Hn in Hy. split; [|assumption].
     eapply Live_in; eauto.
   - exact Hw.
   - exact Hw.
 Qed.
 
-Lemma run_wf ops : wf (fold_left (fun st o => fst (step succ subject manifest cfg_fixed st o)) ops init).
+Lemma run_wf kl ops : wf (fold_left (fun st o => fst (step succ subject manifest cfg_fixed kl st o)) ops init).
 Proof.
-  assert (H : forall st, wf st -> wf (fold_left (fun st o => fst (step succ subject manifest cfg_fixed st o)) ops st)).
+  assert (H : forall st, wf st -> wf (fold_left (fun st o => fst (step succ subject manifest cfg_fixed kl st o)) ops st)).
   { induction ops as [|o ops IH]; intros st Hw; [exact Hw|]. simpl. apply IH. now apply step_wf. }
   apply H. intros y [].
 Qed.
@@ -766,14 +766,14 @@ Proof.
 Qed.
 
 Definition run_w (c : cfg) (ops : list op) : state :=
-  fold_left (fun st o => fst (step succ_w subject_w manifest_w c st o)) ops init.
+  fold_left (fun st o => fst (step succ_w subject_w manifest_w c false st o)) ops init.
 
 (* F1: the subject walk of the original gcIndex never leaves its loop *)
 Lemma walk_orig_diverges : forall fuel, walk_orig subject_w [2; 1; 0] [] fuel 2 = None.
 Proof. induction fuel as [|f IH]; [reflexivity|]. simpl. exact IH. Qed.
 
 Lemma gc_orig_hangs :
-  snd (step succ_w subject_w manifest_w cfg_orig (run_w cfg_orig [OPush 0; OPush 1; OPush 2]) OGC) = EHang.
+  snd (step succ_w subject_w manifest_w cfg_orig false (run_w cfg_orig [OPush 0; OPush 1; OPush 2]) OGC) = EHang.
 Proof. vm_compute. reflexivity. Qed.
 
 (* F3: without the repair a tagged referrer is deleted together with its tag *)
@@ -797,8 +797,8 @@ Proof. vm_compute. split; reflexivity. Qed.
 Definition cfg_noF13 := {| fixF1 := true; fixF3 := true; fixF4 := true; fixF13 := false |}.
 Lemma gc_noF13_order_dependent :
   let st := run_w cfg_fixed [OPush 0; OPush 1; OPush 5; OPush 6; OPush 7; OTag 1 0] in
-  In 7 (blobs (fst (gc succ_w subject_w cfg_noF13 (fun _ => [6; 7; 5]) st))) /\
-  ~ In 7 (blobs (fst (gc succ_w subject_w cfg_noF13 (fun _ => [7; 6; 5]) st))) /\
+  In 7 (blobs (fst (gc succ_w subject_w cfg_noF13 false (fun _ => [6; 7; 5]) st))) /\
+  ~ In 7 (blobs (fst (gc succ_w subject_w cfg_noF13 false (fun _ => [7; 6; 5]) st))) /\
   (forall n, In n [6; 7; 5] <-> In n (candidates (idx st))).
 Proof.
   vm_compute. split; [|split].
@@ -818,15 +818,15 @@ Proof. vm_compute. intuition discriminate. Qed.
 (* the hypotheses of the theorems are satisfiable on a non-trivial history *)
 Lemma example_gc :
   let st := run_w cfg_fixed [OPush 0; OPush 1; OPush 2; OPush 3; OPush 5; OPush 6; OPush 7; OTag 1 0; ODelete 3] in
-  let st' := fst (step succ_w subject_w manifest_w cfg_fixed st OGC) in
-  blobs st' = [7; 6; 5; 1; 0] /\ snd (step succ_w subject_w manifest_w cfg_fixed st OGC) = Ok.
+  let st' := fst (step succ_w subject_w manifest_w cfg_fixed false st OGC) in
+  blobs st' = [7; 6; 5; 1; 0] /\ snd (step succ_w subject_w manifest_w cfg_fixed false st OGC) = Ok.
 Proof. vm_compute. split; reflexivity. Qed.
 
 Lemma example_delete :
   let st := run_w cfg_fixed [OPush 0; OPush 1; OPush 2; OPush 3; OPush 5; OPush 6; OPush 7; OTag 5 0] in
   autogc st = true /\ In 1 (blobs st) /\
-  blobs (fst (step succ_w subject_w manifest_w cfg_fixed st (ODelete 1))) = [7; 5; 0] /\
-  snd (step succ_w subject_w manifest_w cfg_fixed st (ODelete 1)) = Ok.
+  blobs (fst (step succ_w subject_w manifest_w cfg_fixed false st (ODelete 1))) = [7; 5; 0] /\
+  snd (step succ_w subject_w manifest_w cfg_fixed false st (ODelete 1)) = Ok.
 Proof. vm_compute. intuition. Qed.
 
 (* ================================================================== *)
@@ -842,9 +842,9 @@ Definition reorders (ord : nat -> list nat -> list nat) : Prop :=
 
 Lemma gc_exact_final : forall succ subject,
   acyclic succ -> subject_listed succ subject ->
-  forall ords st, same_elements ords (candidates (idx st)) ->
+  forall kl ords st, same_elements ords (candidates (idx st)) ->
   exists st',
-    gc succ subject cfg_fixed ords st = (st', Ok) /\
+    gc succ subject cfg_fixed kl ords st = (st', Ok) /\
     (forall x, In x (blobs st') <-> In x (blobs st) /\ Live succ subject st x) /\
     (forall x, In x (gnodes st') <-> Live succ subject st x) /\
     (forall t n, In (RTag t, n) (idx st') <-> In (RTag t, n) (idx st)) /\
@@ -852,20 +852,20 @@ Lemma gc_exact_final : forall succ subject,
     (forall s, In s (strays st') <-> In s (strays st) /\ (s_known s && s_valid s = false)) /\
     autogc st' = autogc st.
 Proof.
-  intros succ subject H1 H2 ords st Ho.
-  destruct (gc_exact succ subject (fun _ => true) H1 H2 ords st Ho) as (st' & Hg & A & B & C & D & E).
+  intros succ subject H1 H2 kl ords st Ho.
+  destruct (gc_exact succ subject (fun _ => true) H1 H2 kl ords st Ho) as (st' & Hg & A & B & C & D & E).
   exists st'. split; [exact Hg|]. split; [exact B|]. split; [exact A|]. split; [exact C|].
   split; [|split; [exact D|exact E]].
-  exact (gc_preds succ subject (fun _ => true) H1 H2 ords st st' Ho Hg).
+  exact (gc_preds succ subject (fun _ => true) H1 H2 kl ords st st' Ho Hg).
 Qed.
 
 Lemma gc_terminates_final : forall succ subject,
   acyclic succ -> subject_listed succ subject ->
-  forall ords st, same_elements ords (candidates (idx st)) ->
-  snd (gc succ subject cfg_fixed ords st) = Ok.
+  forall kl ords st, same_elements ords (candidates (idx st)) ->
+  snd (gc succ subject cfg_fixed kl ords st) = Ok.
 Proof.
-  intros succ subject H1 H2 ords st Ho.
-  destruct (gc_exact_final succ subject H1 H2 ords st Ho) as (st' & Hg & _). now rewrite Hg.
+  intros succ subject H1 H2 kl ords st Ho.
+  destruct (gc_exact_final succ subject H1 H2 kl ords st Ho) as (st' & Hg & _). now rewrite Hg.
 Qed.
 
 Lemma delete_exact_final : forall succ subject manifest,
@@ -927,12 +927,12 @@ Proof. intros. now apply delete_plain. Qed.
 
 Lemma wf_final : forall succ subject manifest,
   acyclic succ -> subject_listed succ subject ->
-  forall ops, wf (fold_left (fun st o => fst (step succ subject manifest cfg_fixed st o)) ops init).
+  forall kl ops, wf (fold_left (fun st o => fst (step succ subject manifest cfg_fixed kl st o)) ops init).
 Proof. intros. now apply run_wf. Qed.
 
 Lemma gc_terminates_refuted_final :
   (forall fuel, walk_orig subject_w [2; 1; 0] [] fuel 2 = None) /\
-  snd (step succ_w subject_w manifest_w cfg_orig (run_w cfg_orig [OPush 0; OPush 1; OPush 2]) OGC) = EHang.
+  snd (step succ_w subject_w manifest_w cfg_orig false (run_w cfg_orig [OPush 0; OPush 1; OPush 2]) OGC) = EHang.
 Proof. split; [exact walk_orig_diverges|exact gc_orig_hangs]. Qed.
 
 Lemma hyps_satisfiable : acyclic succ_w /\ subject_listed succ_w subject_w.
